@@ -64,7 +64,10 @@ class StoreRunner:
 
         self.dir = tempfile.mkdtemp(prefix='vk_c18_')
         self.loop = asyncio.new_event_loop()
-        self.stores = {c: FileSystemArtifactStore(ctx=_Ctx(*c), artifact_dir=self.dir) for c in CONTEXTS}
+        # TWO store objects per (model name, pipeline id): every run of a chart constructs its own store object, the
+        # map they implement lives in the directory, not in the object
+        self.stores = {(c, h): FileSystemArtifactStore(ctx=_Ctx(*c), artifact_dir=self.dir)
+                       for c in CONTEXTS for h in (0, 1)}
         self.model = {}
         self.keys = set()
         self.ops = []
@@ -86,7 +89,9 @@ class StoreRunner:
 
         self.ops.append(op)
         ctx = tuple(CONTEXTS[op['ctx']])
-        store = self.stores[ctx]
+        store = self.stores[(ctx, op.get('h', 0))]
+        if op.get('h'):
+            self.facts.add('second-store-object')
         key = (ctx, op['id'])
         prefix_rel = [k for k in self.keys if k[0] == ctx and k[1] != op['id']
                       and (k[1].startswith(op['id'] + '.') or op['id'].startswith(k[1] + '.'))]
@@ -128,7 +133,7 @@ class StoreRunner:
             else:
                 self.model[key] = copy.deepcopy(plain)
         else:
-            viol += self._check_load(key, f'op {n}')
+            viol += self._check_load(key, f'op {n}', handles=(op.get('h', 0),))
         if not viol:
             for k in sorted(self.keys, key=repr):
                 viol += self._check_load(k, f'scan after op {n}')
@@ -136,10 +141,17 @@ class StoreRunner:
                     break
         return viol
 
-    def _check_load(self, key, where):
+    def _check_load(self, key, where, handles=(0, 1)):
+        out = []
+        for h in handles:
+            out += self._check_load_one(key, f'{where} [store object {h}]', self.stores[(key[0], h)])
+            if out:
+                break
+        return out
+
+    def _check_load_one(self, key, where, store):
         from ml_pipeline_engine.artifact_store.errors import ArtifactDoesNotExist
 
-        store = self.stores[key[0]]
         try:
             got = self._call(store.load(key[1]))
             err = None
@@ -163,7 +175,7 @@ class StoreRunner:
 
 @st.composite
 def store_ops(draw):
-    op = {'ctx': draw(st.integers(0, len(CONTEXTS) - 1)), 'id': draw(IDS)}
+    op = {'ctx': draw(st.integers(0, len(CONTEXTS) - 1)), 'id': draw(IDS), 'h': draw(st.sampled_from([0, 0, 1]))}
     kind = draw(st.sampled_from(['save', 'save', 'save', 'load', 'load', 'bad']))
     if kind == 'load':
         op['op'] = 'load'
